@@ -90,6 +90,9 @@ func hookDial(ctx context.Context, network, addr string) (net.Conn, error) {
 		}
 	}
 	r.mu.Unlock()
+	if pi.kind == 'a' && st.A == "down" && r.trigger(a.idx, "access") {
+		r.doCancel(false) // no handler will see this POST: the cancellation scripted for it is raised here
+	}
 	c, err := realDialer.DialContext(ctx, network, target)
 	if target == deadAddr {
 		r.endAttempt(a)
